@@ -292,6 +292,68 @@ fn choices(draws: u64, seed: u64, rep: &mut Report) {
     drive("uniform_distribution_of![<T> ..]", 4, nc, draws, seed, rep, |r| usize::try_from(d.sample(r) - 100).ok());
 }
 
+/// Uniformity on a *large* collection (3 * 2^22 members): residues of the chosen index
+/// modulo 2, 3, 5 and 16 equal-width bins. An index computed through a narrow
+/// intermediate (e.g. an f32 with 24 significant bits) is visibly non-uniform here while
+/// looking perfect on a handful of members.
+fn large_collection(draws: u64, seed: u64, rep: &mut Report) {
+    let len: usize = 3 << 22;
+    let v: Vec<u32> = (0..len as u32).collect();
+    let mut flavours: Vec<(&'static str, Box<dyn FnMut(&mut TraceRng) -> usize + '_>)> = Vec::new();
+    let owned: OneOfCloning<Vec<u32>, u32> = v.clone().into_distribution().unwrap();
+    if owned.num_choices().get() != len {
+        rep.violation("C18/choice/large/num_choices", || json!({"built_from": len, "num_choices": owned.num_choices().get()}));
+    }
+    flavours.push(("Vec.into_distribution (owning) on 3*2^22 members", Box::new(move |r| owned.sample(r) as usize)));
+    let cloning: ChooseCloning<'_, u32> = ToDistribution::<u32>::to_distribution(&v).unwrap();
+    flavours.push(("Vec.to_distribution (cloning) on 3*2^22 members", Box::new(move |r| cloning.sample(r) as usize)));
+    let borrowing: Choose<'_, u32> = ToDistribution::<&u32>::to_distribution(&v).unwrap();
+    flavours.push(("Vec.to_distribution (borrowing) on 3*2^22 members", Box::new(move |r| *borrowing.sample(r) as usize)));
+    for (name, mut pick) in flavours {
+        let mut rng = TraceRng::derive(seed, "C18-large", fnv_str(name));
+        let mut m2 = [0u64; 2];
+        let mut m3 = [0u64; 3];
+        let mut m5 = [0u64; 5];
+        let mut bins = [0u64; 16];
+        for d in 0..draws {
+            rep.eval();
+            let i = pick(&mut rng);
+            if i >= len {
+                rep.violation("C18/choice/large/not-a-member", || json!({"flavour": name, "draw": d, "index": i}));
+                return;
+            }
+            m2[i % 2] += 1;
+            m3[i % 3] += 1;
+            m5[i % 5] += 1;
+            bins[i * 16 / len] += 1;
+        }
+        rep.distinct(fnv_str(name));
+        rep.count("choice:large-collection");
+        let mut rows = Vec::new();
+        let mut cat = |label: String, count: u64, p: f64, rep: &mut Report| {
+            let c = check(format!("{name}: {label}"), draws, count, p);
+            if !c.ok {
+                rep.violation("C18/choice/large/not-uniform", || json!({"flavour": name, "check": c.to_json()}));
+            }
+            rows.push(c.to_json());
+        };
+        for (k, c) in m2.iter().enumerate() {
+            cat(format!("index mod 2 = {k}"), *c, 0.5, rep);
+        }
+        for (k, c) in m3.iter().enumerate() {
+            cat(format!("index mod 3 = {k}"), *c, 1.0 / 3.0, rep);
+        }
+        for (k, c) in m5.iter().enumerate() {
+            let p = ((len + 4 - k) / 5) as f64 / len as f64;
+            cat(format!("index mod 5 = {k}"), *c, p, rep);
+        }
+        for (k, c) in bins.iter().enumerate() {
+            cat(format!("index in sixteenth {k}"), *c, 1.0 / 16.0, rep);
+        }
+        rep.table_push("frequency_tables", json!({"config": name, "draws": draws, "categories": rows}));
+    }
+}
+
 fn empties(rep: &mut Report) {
     let v: Vec<El> = Vec::new();
     let arr: [El; 0] = [];
@@ -328,7 +390,7 @@ pub fn run(args: &Args) -> i32 {
     let draws = args.tier.pick(2_000_000u64, 40_000_000u64);
     // the choice monitors are independent: run the two halves on two threads, the
     // collection part is cheap
-    let rep = run_shards(3, args.threads.min(3), 64 << 20, |s| {
+    let rep = run_shards(4, args.threads.min(4), 64 << 20, |s| {
         let mut rep = Report::new();
         match s {
             0 => {
@@ -338,6 +400,11 @@ pub fn run(args: &Args) -> i32 {
             }
             1 => {
                 if let Err(p) = catch(|| choices(draws, args.seed, &mut rep)) {
+                    rep.violation("C18/choice/panic", || json!({"panic": p.to_string()}));
+                }
+            }
+            2 => {
+                if let Err(p) = catch(|| large_collection(draws / 4, args.seed, &mut rep)) {
                     rep.violation("C18/choice/panic", || json!({"panic": p.to_string()}));
                 }
             }
